@@ -79,9 +79,14 @@ package bgp
 //@   loop 0 decreases capLen
 //@   ensures err == nil ==> len(data) >= 2 + int(c.CapLen)
 //@ func (*CapLongLivedGracefulRestart).DecodeFromBytes
+//@   tag C05 C04
 //@   modifies c.*
 //@   loop 0 invariant len(data) >= i && i >= 0
 //@   loop 0 decreases i
+// from C04: every 7-octet tuple is taken over field by field (AFI, SAFI, flags, 24-bit stale time)
+//@   loop 0 step len(c.Tuples) == header(len(c.Tuples)) + 1
+//@   loop 0 step int(c.Tuples[len(c.Tuples)-1].AFI) == header(int(data[0])*256 + int(data[1])) && c.Tuples[len(c.Tuples)-1].SAFI == header(data[2]) && c.Tuples[len(c.Tuples)-1].Flags == header(data[3])
+//@   loop 0 step int(c.Tuples[len(c.Tuples)-1].RestartTime) == header(int(data[4])*65536 + int(data[5])*256 + int(data[6]))
 //@   ensures err == nil ==> len(data) >= 2 + int(c.CapLen)
 //@ func (*CapFQDN).DecodeFromBytes
 //@   requires len(c.CapValue) == 0
@@ -269,6 +274,10 @@ package bgp
 //@   modifies l.*
 //@   loop 0 decreases len(data)
 //@   ensures err != nil ==> freshMsgErr(err)
+// from C04 (labelled NLRI): only the two reserved encodings (0x800000 and 0) are taken as a withdraw label and are
+// kept as read; every other 3-octet entry is pushed as the 20-bit label it carries
+//@   at-return requires len(l.Labels) == 1 && l.Labels[0] == label && (label == WITHDRAW_LABEL || label == ZERO_LABEL)
+//@   loop 0 step len(labels) == header(len(labels)) + 1 && labels[len(labels)-1] == label >> 4 && label != WITHDRAW_LABEL && label != ZERO_LABEL
 
 //@ func (*DefaultRouteDistinguisher).Len
 //@   inline
@@ -864,3 +873,31 @@ func verifLenIsHeaderPlusLength(p *PathAttribute) bool {
 //@   pure
 //@   modifies nothing
 //@   ensures result <==> (subcode == BGP_ERROR_SUB_MAXIMUM_NUMBER_OF_PREFIXES_REACHED || subcode == BGP_ERROR_SUB_ADMINISTRATIVE_SHUTDOWN || subcode == BGP_ERROR_SUB_PEER_DECONFIGURED || subcode == BGP_ERROR_SUB_HARD_RESET || (hardResetOnAdminReset && subcode == BGP_ERROR_SUB_ADMINISTRATIVE_RESET))
+
+// NEXT_HOP: decode(encode(a)) keeps the address family and the announced length, reports through Len() the
+// octets emitted, and gives back the same address for IPv4 (an IPv4 netip.Addr is determined by its 4 octets;
+// for IPv6 the netip model has no such axiom, so only family and framing are decided there).
+//@ props C04
+//@ func verifRoundTripNextHop
+//@   requires a != nil && validatePathAttributeFlags(a.Type, a.Flags) == ""
+//@   requires (a.Value.Is4() && a.Length == 4) || (a.Value.Is6() && a.Length == 16)
+//@   inline-calls
+//@   modifies nothing
+//@   ensures result
+func verifRoundTripNextHop(a *PathAttributeNextHop) bool {
+	buf, err := a.Serialize()
+	if err != nil {
+		return false
+	}
+	b := &PathAttributeNextHop{}
+	if err := b.DecodeFromBytes(buf); err != nil {
+		return false
+	}
+	if b.Value.Is4() != a.Value.Is4() || b.Value.Is6() != a.Value.Is6() {
+		return false
+	}
+	if a.Value.Is4() && b.Value != a.Value {
+		return false
+	}
+	return b.Type == a.Type && b.Flags == a.Flags && b.Length == a.Length && a.Len() == len(buf) && b.Len() == len(buf)
+}
